@@ -38,6 +38,15 @@ theorem tip_is_best_small (ops : List Op) (hdo : deliveryOnly ops) (hwf : WF (me
     (hsmall : blockCount ops ≤ maxOrphans) : IsBest (delivered ops) (run ops).tip :=
   run_isBest ops hdo hwf (run_noEvict ops hdo hsmall)
 
+/-- Deliveries, a clean restart, more deliveries: the tip is the best chain of what survived the
+restart — the blocks that were stored (`storedOf`; blocks only pooled as orphans are forgotten by a
+restart, by design) — together with everything delivered afterwards. -/
+theorem tip_is_best_across_restart (ops1 ops2 : List Op) (hd1 : deliveryOnly ops1) (hd2 : deliveryOnly ops2)
+    (hwf : WF (mentioned (ops1 ++ ops2)))
+    (hev : (runFrom (restart (run ops1)) ops2).evicted = []) :
+    IsBest (storedOf ops1 ++ delivered ops2) (runFrom (restart (run ops1)) ops2).tip :=
+  run_restart_isBest ops1 ops2 hd1 hd2 hwf hev
+
 /-- First-seen rule ("ties going to the chain that became active first"): one more delivery either
 leaves the whole active chain as it is or moves it to a chain of STRICTLY greater cumulative work;
 an equal-work chain never displaces the active one. -/
